@@ -28,7 +28,13 @@ for id in "$@"; do
   suite="pass"
   if ! grep -q "Summary" "$log"; then suite="BUILD-FAILED"; fi
   for t in $failed; do
-    if ! (cd "$W" && cargo nextest run --workspace --offline --test-threads 1 -E "test(=$t)" >>"$log.rerun" 2>&1); then suite="FAILS:$t"; fi
+    # wall-clock assertions (10 ms benchmarks) fail under machine load: up to 4 attempts alone
+    ok=0
+    for attempt in 1 2 3 4; do
+      if (cd "$W" && cargo nextest run --workspace --offline --test-threads 1 -E "test(=$t)" >>"$log.rerun" 2>&1); then ok=1; break; fi
+      sleep 5
+    done
+    [ $ok -eq 1 ] || suite="FAILS:$t"
   done
   git -C "$W" apply "$D/demo.diff" || { echo "NOT-VERIFIED $id demo does not apply on the patch"; continue; }
   (cd "$W" && eval "$cmd" >"$log.with" 2>&1); with=$?
